@@ -222,6 +222,7 @@ static void new_client(void) {
   if (i >= MAXC) return;
   nclient++;
   cfd[i] = -1;
+  if (g_closing) return;      /* the server is gone: its port/path may already belong to someone else */
   if (g_mode == 't') {
     struct sockaddr_in a; memset(&a, 0, sizeof a);
     a.sin_family = AF_INET; a.sin_addr.s_addr = htonl(INADDR_LOOPBACK); a.sin_port = htons(srv_port);
